@@ -379,12 +379,14 @@ class PropertyRun:
                     print("CROSSCHECK: " + msg)
 
     def finish(self, level, explanation, trusted_base, assumptions, undecided_clauses, checker_cmd, extra=None):
-        n_ob = len(self.obligations)
-        n_ok = sum(1 for o in self.obligations if o["status"] == "proved" or o.get("known_finding"))
+        e1 = [o for o in self.obligations if o.get("kind") != "bounded"]
+        n_ob = len(e1)
+        n_ok = sum(1 for o in e1 if o["status"] == "proved" or o.get("known_finding"))
         evidence = {
             "property_id": self.pid, "tier": self.tier, "seed": self.seed, "level": level,
             "coverage": {
-                "obligations": n_ob, "discharged": sum(1 for o in self.obligations if o["status"] == "proved"),
+                "obligations": n_ob, "discharged": sum(1 for o in e1 if o["status"] == "proved"),
+                "bounded_obligations": sum(1 for o in self.obligations if o.get("kind") == "bounded"),
                 "checker_cmd": checker_cmd, "trusted_base": trusted_base, "explanation": explanation,
                 "samples": [o for o in self.obligations[:6]],
                 "functions_under_contract": self.functions,
